@@ -975,6 +975,11 @@ fn add_jitter(delay: &u64) -> Duration {
 
     // Calculate jitter as a random value in the range of +/- MAX_JITTER_PERCENT of the delay.
     let max_jitter = delay.saturating_mul(MAX_JITTER_PERCENT * 2) / 100;
+    // For delays of 1 or 2 ms the jitter range rounds down to 0: there is nothing to
+    // jitter, and `% 0` would panic.
+    if max_jitter == 0 {
+        return Duration::from_millis(*delay);
+    }
     let jitter = rand::random::<u64>() % max_jitter;
 
     Duration::from_millis(delay.saturating_sub(max_jitter / 2).saturating_add(jitter))
